@@ -23,9 +23,9 @@ RULE = (
     "{update_from_buffer(bytes | bytearray | memoryview | sliced memoryview | ndarray.data of itemsize 1/2/4/8), "
     "update_from_native(source offset), copy_to_native(dest offset), to_native, to_bytearray, to_pointer_arg, "
     "to_nplike/to_nparray(10 dtypes x 1-3 dim shapes), update_from_nplike(source dtype x dest dtype with exact "
-    "conversion x C/F/strided/reversed/N-D/0-length layouts), update_from_xbuffer(other buffer same context | buffer "
+    "conversion x C/F/strided/reversed/N-D/0-length/non-native-byte-order layouts), update_from_xbuffer(other buffer same context | buffer "
     "of another context, either kind | same buffer, disjoint ranges), scalar _to_buffer/_from_buffer/"
-    "_array_to_buffer/_array_from_buffer for the 10 numeric kinds}. Buffers hold a position-dependent byte pattern; "
+    "_array_to_buffer/_array_from_buffer for the 10 numeric kinds, grow(n) with an allocated prefix and an optional freed hole (every old byte carried over, capacity + n)}. Buffers hold a position-dependent byte pattern; "
     "oracle: whole-buffer equality with the bytes reference model (exactly the requested bytes at the requested "
     "offsets, everything else untouched, capacity and storage length unchanged), extracted copies stay unchanged "
     "when the buffer is written afterwards and vice versa, typed views alias exactly the bytes they cover in both "
@@ -39,6 +39,7 @@ ASSUMPTIONS = [
     "same-buffer update_from_xbuffer only with disjoint ranges (the statement speaks of 'another buffer'; the library copies objects inside one buffer this way)",
     "update_from_nplike conversions are generated exact (value representable in the destination dtype); NaN only for float->float of the same width",
     "ndarray.data sources of update_from_buffer are C-contiguous (a non-contiguous memoryview has no defined byte sequence)",
+    "grow(n) carries over every byte of the old capacity, allocated or not (callers may place data at explicit offsets without allocating, as the repo's own buffer tests do)",
 ]
 EXHAUSTIVE_SCOPE = {
     "quick": "every primitive x every (offset,length) with offset+length <= capacity, capacity in 0..10 and 16, both buffer kinds",
@@ -122,7 +123,7 @@ def run_case(case):
     if var is not None and not isinstance(var, (dict, list)):
         labels.add(f"{prim}:{var}")
     nontrivial = n > 0 and o > 0
-    if o + n > cap:
+    if o + n > cap and prim != "grow":
         return Outcome(True, labels=["out_of_domain"])
     buf = make(kind, cap)
     before = pat(cap)
@@ -289,6 +290,25 @@ def run_case(case):
         labels.add(f"xbuffer:{rel}")
         return whole(_splice(before, o, pay), what) or done()
 
+    if prim == "grow":
+        # growth replaces the storage: every byte of the old capacity (allocated or not - callers may place data at
+        # explicit offsets) is carried over, the buffer gets exactly n bytes larger
+        a = min(o, cap)
+        if a:
+            buf.allocate(a)
+        if case.get("so") and a > 1:
+            buf.free(0, a // 2)
+        fill(buf, before)
+        r = sut(buf.grow, n)
+        if is_raised(r):
+            return fail("raised", f"grow({n}): {r}", f"grow|{r.key}", labels)
+        if buf.capacity != cap + n or len(buf.buffer) != cap + n:
+            return fail("storage_changed", f"grow({n}) on capacity {cap}: capacity {buf.capacity}, storage {len(buf.buffer)}", "grow", labels)
+        got = raw(buf)[:cap]
+        if got != before:
+            pos = [i for i in range(cap) if got[i] != before[i]]
+            return fail("bytes_lost_on_growth", f"grow({n}) with {a} bytes allocated{' and a freed hole' if case.get('so') else ''}: old bytes at {pos[:8]} not carried over", "grow", labels)
+        return Outcome(True, labels=sorted(labels), nontrivial=cap > 0 and n > 0)
     if prim == "scalar":
         import xobjects as xo
 
@@ -382,6 +402,9 @@ def _np_source(var):
         src = big[tuple(slice(None, None, -1) for _ in shape)]
     elif layout == "transposed":
         src = np.ascontiguousarray(base.T).T
+    elif layout == "swapped":
+        src = base.astype(base.dtype.newbyteorder())  # same values, non-native byte order (as read from big-endian files)
+        return src, exp, dd
     else:
         raise ValueError(layout)
     assert src.tobytes() == np.ascontiguousarray(base).tobytes() and src.shape == base.shape
@@ -407,7 +430,7 @@ def exhaustive_jobs(tier):
     jobs = []
     for kind in ("numpy", "bytearray"):
         for cap in _caps(tier):
-            for fam in ("pyput", "native", "extract", "views", "xbuf", "scalar"):
+            for fam in ("pyput", "native", "extract", "views", "xbuf", "scalar", "grow"):
                 jobs.append({"kind": kind, "cap": cap, "fam": fam})
     return jobs
 
@@ -457,6 +480,10 @@ def iter_job_cases(job):
                 for so in range(cap - n + 1):
                     if so + n <= o or o + n <= so:
                         yield dict(base, prim="update_from_xbuffer", so=so, extra=0, var={"rel": "same_buffer"})
+            elif fam == "grow":
+                if n <= 9:
+                    for hole in (0, 1):
+                        yield dict(base, prim="grow", so=hole)
             elif fam == "scalar":
                 if n == 0:
                     for dt in DTYPES:
@@ -469,7 +496,7 @@ def iter_job_cases(job):
     if fam == "views":
         # update_from_nplike: all dtype pairs, layouts, at every offset, small shapes
         for sd, dd in itertools.product(DTYPES, DTYPES):
-            for shape, layout in (((2,), "C"), ((0,), "C"), ((1, 2), "F"), ((2, 1), "strided"), ((2,), "reversed"), ((2, 2), "F"), ((2, 2), "transposed")):
+            for shape, layout in (((2,), "C"), ((0,), "C"), ((1, 2), "F"), ((2, 1), "strided"), ((2,), "reversed"), ((2, 2), "F"), ((2, 2), "transposed"), ((2,), "swapped")):
                 cnt = int(np.prod(shape))
                 vals = [1, 100][: cnt] if cnt <= 2 else [0, 1, 7, 100]
                 nb = cnt * np.dtype(dd).itemsize
@@ -536,14 +563,14 @@ def cases(draw, tier):
     big = 4096 if tier == "thorough" else 300
     prim = draw(st.sampled_from(
         ["update_from_nplike"] * 6 + ["update_from_buffer", "update_from_native", "copy_to_native", "to_native", "to_bytearray",
-                                     "to_pointer_arg", "to_nplike", "to_nparray", "update_from_xbuffer", "update_from_xbuffer", "scalar"]))
+                                     "to_pointer_arg", "to_nplike", "to_nparray", "update_from_xbuffer", "update_from_xbuffer", "scalar", "grow"]))
     if prim == "update_from_nplike":
         sd = draw(st.sampled_from(DTYPES))
         dd = draw(st.sampled_from([sd, sd] + DTYPES))
         nd = draw(st.sampled_from([1, 1, 2, 2, 3]))
         shape = [draw(st.sampled_from([0, 1, 2, 3, 4, 5])) for _ in range(nd)]
         cnt = int(np.prod(shape))
-        layout = draw(st.sampled_from(["C", "F", "strided", "reversed", "transposed"]))
+        layout = draw(st.sampled_from(["C", "F", "strided", "reversed", "transposed", "swapped"]))
         vals = _exact_vals(draw, sd, dd, cnt)
         nb = cnt * np.dtype(dd).itemsize
         o = draw(st.one_of(st.integers(0, 16), st.integers(0, 200)))
@@ -583,6 +610,9 @@ def cases(draw, tier):
             if draw(st.booleans()):
                 o, so = so, o
             case.update(off=o, n=n, so=so, extra=0)
+    elif prim == "grow":
+        case["so"] = draw(st.integers(0, 1))
+        case["n"] = draw(st.integers(0, 300))
     elif prim == "scalar":
         dt = draw(st.sampled_from(DTYPES))
         isz = np.dtype(dt).itemsize
